@@ -11,6 +11,7 @@ ap.add_argument('--seeded', action='store_true')
 ap.add_argument('--props', default='')
 ap.add_argument('--tier', default='quick')
 ap.add_argument('--label', default='run')
+ap.add_argument('--harvest', action='store_true', help='copy the replay file of each violation to regressions/<prop>/<id>.json')
 a = ap.parse_args()
 only = set(x for x in a.only.split(',') if x)
 jobs = []
@@ -48,6 +49,18 @@ for j in jobs:
             r = subprocess.run([str(V / 'check'), p, a.tier], capture_output=True, text=True, env=env)
             lines = [l for l in r.stdout.splitlines() if l.startswith(('VIOLATION', 'OK ', 'INCONCLUSIVE', '  what:'))]
             results.append({'id': j['id'], 'property': p, 'exit': r.returncode, 'wall_s': round(time.time() - t0, 1), 'lines': lines[:4]})
+            if a.harvest and r.returncode == 1:
+                for l in r.stdout.splitlines():
+                    if l.startswith('VIOLATION') and 'replay=' in l:
+                        src = l.split('replay=')[1].strip()
+                        dst = V / 'regressions' / p
+                        dst.mkdir(parents=True, exist_ok=True)
+                        try:
+                            d = json.load(open(src)); d['origin'] = 'shrunk failing case found on seeded change ' + j['id']
+                            json.dump(d, open(dst / (j['id'] + '.json'), 'w'), indent=1)
+                        except Exception as e:
+                            print('harvest failed', e)
+                        break
             print(j['id'], p, 'exit', r.returncode, round(time.time() - t0, 1), 's', (lines[0][:160] if lines else ''), flush=True)
     finally:
         subprocess.run(['git', '-C', '/repo', 'worktree', 'remove', '--force', wt])
